@@ -10932,7 +10932,7 @@ tmcg_openpgp_byte_t CallasDonnerhackeFinneyShawThayerRFC4880::SubpacketDecode
 		len -= 1; // first octet (subpacket type) is already processed
 	else
 		return 0; // error: subpacket without type octet
-	if (in.size() < (headlen + len))
+	if ((in.size() < headlen) || ((in.size() - headlen) < len))
 		return 0; // error: subpacket too short
 	tmcg_openpgp_octets_t pkt;
 	pkt.insert(pkt.end(), in.begin()+headlen, in.begin()+headlen+len);
